@@ -143,6 +143,13 @@ class Builder:
             if ("cond", c) not in self.memo:
                 self.memo[("cond", c)] = self._leaf(c)
             return self.memo[("cond", c)]
+        if self.share_conds == "neg" and (k == "t" or (k in ("not", "inv") and c[1][0] in ("cmp", "in", "has", "t"))):
+            # s = not_(x.flag) / s = not_(x.p > 1) / s = x.flag written ONCE and used in several places: the negated object
+            # as a whole is what is reused (its operand is built for it alone, never shared with an un-negated occurrence)
+            if ("cond", c) not in self.memo:
+                self.memo[("cond", c)] = (self._leaf(c) if k == "t" else
+                                          (not_ if k == "not" else operator.invert)(self._leaf(c[1])))
+            return self.memo[("cond", c)]
         if k == "const":        # ("const", "True"/"False"): a plain Python bool given as a condition
             return c[1] == "True"
         return self._leaf(c)
